@@ -297,7 +297,24 @@ def gen_bins(rng):
     single = None
     if ents and rng.random() < 0.08:
         single = rng.choice(ents)["path"]
-    return {"ents": ents, "ignore_file": ignore_file, "single": single}
+    # symbolic links to binaries (libfoo.so -> libfoo.so.1 -> the real file), to a directory, and a dangling one:
+    # a link is not an executable of its own, the file it points to is exported once
+    links = []
+    if ents and rng.random() < 0.35:
+        tgt = rng.choice(ents)
+        d = os.path.dirname(tgt["path"])
+        b = os.path.basename(tgt["path"])
+        l1 = os.path.join(d, "lnk1_" + b.lstrip("."))
+        links.append([l1, b])                                  # same directory, relative target
+        if rng.random() < 0.6:
+            links.append([os.path.join(d, "lnk2_" + b.lstrip(".")), os.path.basename(l1)])   # link to the link
+        if rng.random() < 0.4:
+            links.append(["toplnk_%s" % tgt["id"], tgt["path"]])                  # from the root of the tree
+        if rng.random() < 0.3:
+            links.append(["dangling_lnk", "no/such/file"])
+        if d and rng.random() < 0.3:
+            links.append(["dirlnk", d.split("/")[0]])                             # link to a directory
+    return {"ents": ents, "ignore_file": ignore_file, "single": single, "links": links}
 
 
 def bin_content(e):
@@ -321,6 +338,11 @@ def write_bins(root, bins):
         with open(p, "wb") as f:
             f.write(bin_content(e))
         os.chmod(p, 0o755 if e["kind"] in ("elf", "script") else 0o644)
+    for lp, tgt in bins.get("links", []):
+        p = os.path.join(root, lp)
+        os.makedirs(os.path.dirname(p), exist_ok=True)
+        if not os.path.lexists(p):
+            os.symlink(tgt, p)
     if bins["ignore_file"]:
         with open(os.path.join(root, ".ignore"), "w") as f:
             f.write("skipme/\n*.skip\n")
@@ -489,8 +511,38 @@ def gen_program(rng):
     stale = []
     if runs and rng.random() < 0.35:
         stale = rng.sample(units, min(len(units), rng.choice([1, 1, 2])))
-    return {"files": files, "units": units, "runs": runs, "pair_line": pair, "stale": stale,
+    # a unit whose .gcda gets one arc counter overwritten with 2^64-1 after the runs: gcov succeeds but prints "count": -1,
+    # which grcov's parser rejects - the unit must contribute nothing and must not disturb the units handled after it
+    corrupt = []
+    if runs and rng.random() < 0.3:
+        cand = [u for u in units if u not in stale]
+        if cand:
+            corrupt = [rng.choice(cand)]
+    return {"files": files, "units": units, "runs": runs, "pair_line": pair, "stale": stale, "corrupt": corrupt,
             "abs_include": abs_include, "abs_units": abs_units, "shapes": shapes}
+
+
+def corrupt_gcda(path):
+    """overwrite the first arc counter (record GCOV_TAG_COUNTER_ARCS = 0x01a10000) with 2^64-1; False if there is none"""
+    d = bytearray(open(path, "rb").read())
+    i = d.find(b"\x00\x00\xa1\x01")
+    if i < 0 or len(d) < i + 16:
+        return False
+    d[i + 8:i + 16] = b"\xff" * 8
+    with open(path, "wb") as f:
+        f.write(d)
+    return True
+
+
+def json_rejected(js):
+    """does gcov's JSON carry a negative counter (which grcov's u64 fields reject)?"""
+    for f in js["files"]:
+        for l in f["lines"]:
+            if l["count"] < 0 or any(b["count"] < 0 for b in l["branches"]):
+                return True
+        if any(fn["execution_count"] < 0 for fn in f["functions"]):
+            return True
+    return False
 
 
 # ----------------------------------------------------------------------------
